@@ -461,6 +461,8 @@ void hv_case(uint64_t index)
     else if (op < 15) { what = "restrict"; struct hx h; hx_init(&h, T, &R); h.allow_bad_args = 0; struct hx_result res; hx_random_op(&h, 1u << HX_RESTRICT, &res); hv_desc("  %s -> %d\n", res.desc, res.rc); if (res.rc == 0) { model_follow(); restricts++; } }
     else if (op < 17) { what = "dup"; hv_ctxkey("carrier:dup"); hwloc_topology_t t2 = NULL; if (hwloc_topology_dup(&t2, T) == 0) { hwloc_topology_destroy(T); T = t2; carriers++; hv_desc("  carrier: dup\n"); } else hv_viol("carrier.dup_failed", "hwloc_topology_dup failed"); }
     else if (op < 19 && (!no_memattrs || NA + 8 <= MAXA)) { what = "xml"; hv_ctxkey("carrier:xml"); char *buf = NULL; int len = 0;
+      if (tv_has_empty_normal_object(T)) { hv_viol("carrier.xml.empty_objects_left_by_restrict", "the topology holds a normal object with neither a PU nor a NUMA node below it (left by a restrict by nodeset); a reload drops it, the XML carrier cannot preserve what refers to it"); break; }
+      
       if (hwloc_topology_export_xmlbuffer(T, &buf, &len, 0) == 0) {
         hwloc_topology_t t2; hwloc_topology_init(&t2); hwloc_topology_set_all_types_filter(t2, HWLOC_TYPE_FILTER_KEEP_ALL);
         /* a topology loaded with NO_MEMATTRS is re-imported without the flag (which would ignore the attributes of the XML) */
